@@ -91,7 +91,12 @@ def _cases(draw):
     c = {"form": form}
     if P(0.5):
         c["alias"] = {k: g.pick(v) for k, v in ALIAS.items() if k in s and P(0.5) and not (both_ids and k == "form_id")}
-    if P(0.35):
+    if P(0.12) and form.get("settings"):
+        # a CSV file whose settings sheet has an unnamed spacer column between the named ones
+        c["csv_spacer"] = g.integer(0, 12)
+        c["stem"] = g.pick(STEMS)
+        c["suffix"] = ""
+    elif P(0.35):
         c["stem"] = g.pick(STEMS)
         # the suffix is only a hint: upper-case, unknown or missing suffixes must still supply the stem
         c["suffix"] = g.pick(["", "", "", "upper", ".txt", "none"])
@@ -134,6 +139,8 @@ def _suffix(case, normal):
 def file_stem(case):
     import pathlib
 
+    if "csv_spacer" in case:
+        return case["stem"]
     ext = ".md" if use_md(run_form_of(case)) else ".xlsx"
     return pathlib.Path(case["stem"] + _suffix(case, ext)).stem
 
@@ -144,7 +151,18 @@ def run(case):
     if "stem" in case:
         d = tempfile.mkdtemp(prefix="vf_c11_")
         try:
-            if use_md(form):
+            if "csv_spacer" in case:
+                sheets = render.sheets_of(form)
+                cols = {}
+                for name, head, rows in sheets:
+                    if name.lower() == "settings" and head:
+                        hh = list(head)
+                        hh.insert(case["csv_spacer"] % (len(hh) + 1), None)
+                        cols[name] = hh
+                path = os.path.join(d, case["stem"] + ".csv")
+                with open(path, "w", encoding="utf-8", newline="") as f:
+                    f.write(render.csv_of_sheets(sheets, cols=cols))
+            elif use_md(form):
                 path = os.path.join(d, case["stem"] + _suffix(case, ".md"))
                 with open(path, "w", encoding="utf-8") as f:
                     f.write(render.to_md(form))
